@@ -7,4 +7,5 @@ def check(ctx: Ctx) -> None:
     CT.r_dispatch(ctx, "R17.1")
     CT.r_arg_mapping(ctx, "R17.3")
     CT.r_return_or_exception(ctx, "R17.4")
+    CT.r_tokens(ctx, "R17.5")
     CT.r_annotation_kinds(ctx, "R16.3")
